@@ -106,6 +106,19 @@ func propC04(c *Ctx) {
 		c.seed("passphrase-starts-with-mark", eng, p)
 		c.seed("mnemonic-starts-with-mark", p, eng)
 	}
+	// consecutive calls whose (password ‖ salt) concatenations coincide although the arguments differ
+	// (a memo keyed on the concatenation, or a shared buffer, shows only on such a pair)
+	for _, pr := range [][4]string{{"", "mnemonic", "mnemonic", ""}, {eng, "mnemonicTREZOR", eng + "mnemonic", "TREZOR"},
+		{"a", "bmnemonicc", "amnemonicb", "c"}, {eng, "x", eng + " ", "x"}, {eng, "", eng, " "}} {
+		c.seed("boundary-shift-pair", pr[0], pr[1])
+		c.seed("boundary-shift-pair", pr[2], pr[3])
+		c.seed("boundary-shift-pair", pr[0], pr[1])
+	}
+	// same arguments repeatedly, different arguments in between
+	for k := 0; k < 3; k++ {
+		c.seed("repeat", eng, "TREZOR")
+		c.seed("repeat", eng+"x", "TREZOR")
+	}
 	c.seed("non-mnemonic", "this is not a mnemonic at all", "pw")
 	c.seed("non-mnemonic", strings.Repeat("abandon ", 12), "")
 	c.seed("non-mnemonic", "zoo", "")
